@@ -216,6 +216,9 @@ func drawLines(out *Out, cfg *Cfg, t *Target, seeds int) {
 		{"e", rapidproto.GeneratorOptions{NoEmptyLists: true}},
 		{"d", rapidproto.GeneratorOptions{}.WithDisallowNil()},
 		{"ed", rapidproto.GeneratorOptions{NoEmptyLists: true, DisallowNilMessages: true}},
+		// field mapper answering "mapped" for every string-kind scalar (no draw is consumed for those)
+		{"-+mstring=s6d6170706564", rapidproto.GeneratorOptions{FieldMaps: []rapidproto.FieldMapper{stringMapper(new(int))}}},
+		{"e+mstring=s6d6170706564", rapidproto.GeneratorOptions{NoEmptyLists: true, FieldMaps: []rapidproto.FieldMapper{stringMapper(new(int))}}},
 	}
 	dir := cfg.Out
 	out.Line("schema", t.S.Line(), "schema wf msgs="+fmt.Sprint(len(t.S.Msgs)))
